@@ -56,7 +56,7 @@ CHECKS["C14"] = dict(
 CHECKS["C04"] = dict(
     category="model_checking",
     technique="static rules as an executable TLA+ definition (WellFormed) classifying TLC-enumerated near-miss programs; replay of TemplateProgram::new; implementation traces (hook events of the scope machines / builders, cargo feature verif) validated by TLC against TraceScopes.tla",
-    text="TLC enumerates single-slot near misses of six program schemas plus the well-formed families; WellFormed (Static.tla, written "
+    text="TLC enumerates single-slot near misses of eight program schemas (the eighth: integer literals around 2^N at every width and position) plus the well-formed families; WellFormed (Static.tla, written "
          "from the book) computes accept/reject; the real front end must classify every text the same way.",
     note=PROG_NOTE + " The static rules are the oracle; where the book is silent (alias redefinition, reserved words as names) no case is generated.",
     design="5 (C04)")
@@ -64,13 +64,13 @@ CHECKS["C08"] = dict(
     category="model_checking",
     technique="TLC checks the list_fold doubling construction against the reference fold for every bound/length; replay of fold programs on every list length; implementation traces (hook events of the scope machines / builders, cargo feature verif) validated by TLC against TraceScopes.tla",
     text="Model: ListFoldT (compile.rs construction) = reference left-to-right fold for bounds 2..256(512), every length of the tier, "
-         "five order-sensitive / panicking fold functions. Code: same programs and witness lists replayed on the Bit Machine.",
+         "five order-sensitive / panicking fold functions (bounds 2..16 also: zero-width elements, a fold inside the fold function, compound elements with a never-read component). Code: same programs and witness lists replayed on the Bit Machine.",
     note=PROG_NOTE, design="5 (C08)")
 CHECKS["C09"] = dict(
     category="model_checking",
     technique="TLC checks the for_while task-stack construction against the reference loop; replay of loops with every exit iteration; implementation traces (hook events of the scope machines / builders, cargo feature verif) validated by TLC against TraceScopes.tla",
     text="Model: ForWhileT (stack W(n+1)=W(n)W(n)adapt, for_while_0, adapt_f) = reference loop (ascending counters, ctx constant, "
-         "first Left ends, nothing evaluated after the exit) for widths 1,2,4,8(16). Code: replay on the Bit Machine.",
+         "first Left ends, nothing evaluated after the exit) for widths 1,2,4,8(16), also for a loop nested in a loop body. Code: replay on the Bit Machine.",
     note=PROG_NOTE, design="5 (C09)")
 CHECKS["C10"] = dict(
     category="model_checking",
@@ -84,12 +84,13 @@ CHECKS["C05"] = dict(
     technique="TLA+ rule SatisfyOK (nominal witness typing) + reference semantics; TLC-generated witness maps replayed into satisfy / Bit Machine",
     text="Programs with 0..8 witnesses over classes of layout-equal types; maps exact / extra / missing / re-typed within the layout class / "
          "other layout / swapped. satisfy must return Err exactly as SatisfyOK says; on Ok the observed verdict must be the one of the "
-         "reference semantics (each witness compared with its own literal, so cross-delivery is visible).",
+         "reference semantics (each witness compared with its own literal, so cross-delivery is visible); list witnesses of every length "
+         "are observed through the order-sensitive folds of MC_Fold.",
     note=PROG_NOTE + " Maps omitting a used witness: only `no panic` is required.", design="5 (C05)")
 CHECKS["C12"] = dict(
     category="model_checking",
     technique="TLA+ rules Params/InstantiateOK + invariant SubstEquivalent (instantiation = literal substitution) checked by TLC; replay of parameters(), instantiate and both programs; implementation traces (hook events of the scope machines / builders, cargo feature verif) validated by TLC against TraceScopes.tla",
-    text="Programs with 0..4 parameters in main / called / never-called functions; parameters() must equal the model's set; argument maps "
+    text="Programs with 0..4 parameters (13 types, five of them zero-width) in main / called / never-called functions; parameters() must equal the model's set; argument maps "
          "exact/extra/missing/re-typed classified by InstantiateOK; instantiated and literally substituted program give the model's "
          "verdict vector.",
     note=PROG_NOTE, design="5 (C12)")
